@@ -13,7 +13,7 @@ from tools.vlib import g_bool, g_list, g_opt
 UNKEYED = ("stream_t", "stream_n", "single", "pass")
 KEYED = ("keyed_t", "keyed_n", "ksingle")
 KINDS = UNKEYED + KEYED
-TOP = ("top_order", "top_fold", "top_merge")
+TOP = ("top_order", "top_fold", "top_merge", "top_keyed_order", "top_partial")
 
 # ---------------------------------------------------------------- Python port (enumeration only)
 
@@ -105,6 +105,16 @@ def p_ksingle(m, last, force, ask):
 
 def p_top(h, force, ask):
     k = h["kind"]
+    if k in ("top_keyed_order", "top_partial"):
+        ne = [q for _, q in h["m"] if q]
+        if not ne:
+            return
+        if not force and ask(0, 1) == 1:
+            return
+        ki = ask(0, len(ne) - 1)
+        if k == "top_keyed_order":
+            ask(0, len(ne[ki]) - 1)
+        return
     q = h["q"]
     if k == "top_order":
         if not q:
@@ -156,6 +166,8 @@ def inline_scripts(c, limit=4000):
 
 
 def can_nt(h):
+    if h["kind"] in ("top_keyed_order", "top_partial"):
+        return any(q for _, q in h["m"])
     if h["kind"] == "top_merge":
         return bool(h["q"]) or bool(h["q2"])
     if h["kind"] in KEYED:
@@ -464,6 +476,8 @@ def g_thook(h):
         return "(TFold %s)" % g_ln(h["q"])
     if k == "top_merge":
         return "(TMerge %s %s)" % (g_ln(h["q"]), g_ln(h["q2"]))
+    if k in ("top_keyed_order", "top_partial"):
+        return "(TKeyed %s %s)" % (g_bool(k == "top_partial"), g_map(h["m"]))
     raise ValueError(k)
 
 
@@ -475,7 +489,13 @@ def top_term(case, res):
     if "before" not in r:
         return 3
     ds = r.get("ds_used", rnd.get("ds", []))
-    return "(top_verdict %s %s %s %s)" % (g_thook(case["hook"]), g_bool(rnd.get("force", False)),
+    h = case["hook"]
+    if "m" in h:  # present the map in the implementation's iteration order (the order oracle)
+        d = {}
+        for k, q in h["m"]:
+            d.setdefault(k, []).extend(q)
+        h = dict(h, m=[[k, d.get(k, [])] for k in order_of(r["before"])])
+    return "(top_verdict %s %s %s %s)" % (g_thook(h), g_bool(rnd.get("force", False)),
                                            g_script(ds), g_obs(r))
 
 
